@@ -11,3 +11,5 @@ try:
     print(p.stdout[-3000:]); print("exit", p.returncode)
 finally:
     subprocess.run(["git", "-C", "/repo", "checkout", "--", "."], check=True)
+    # evidence must describe the unchanged tree: rewrite it
+    subprocess.run(["python3", "/verif/checks/run.py", prop], capture_output=True, text=True, cwd="/verif")
